@@ -17,7 +17,7 @@ PROPS = {
         rule="exhaustive shapes (quick: 1-4 axes x lengths 1..3 and 1-3 axes x 1..4; thorough: 1-5 x 1..4, 1-4 x 5, 1-3 x 1..5) x all axes x all positions, "
              "each iterator driven size+5 calls with len() sampled before every call, plus out-of-range axis {d, d+1, 2^64-1}, position = length / 2^64-1, "
              "wrong-length and out-of-range indices, plus random larger shapes; non-trivial = distinct request on an array with >= 2 axes "
-             "(or a view with >= 1 remaining axis, or an in-range get) 200 (thorough 2000) `hist.arr` call histories on one array object with 1-6 axes (get, set through IndexMut / get_mut, axis views, axis iterators, index iterators, axis sums, replacement by an axis sum, clones). Array histories also advance a view iterator k times and drain it through count / sum / last / fold / for_each / max; every shape with 1-3 axes of length 0..3 containing a zero-length axis (index / axis iterators, every axis view, axis sums). Round 7: `clonefrom` / `asg` (the object overwritten in place from one of another shape) in the call histories.",
+             "(or a view with >= 1 remaining axis, or an in-range get) 200 (thorough 2000) `hist.arr` call histories on one array object with 1-6 axes (get, set through IndexMut / get_mut, axis views, axis iterators, index iterators, axis sums, replacement by an axis sum, clones). Array histories also advance a view iterator k times and drain it through count / sum / last / fold / for_each / max; every shape with 1-3 axes of length 0..3 containing a zero-length axis (index / axis iterators, every axis view, axis sums). Round 7: `clonefrom` / `asg` (the object overwritten in place from one of another shape) in the call histories. Round 9: axis sums with lanes of 4097 … 8193 elements.",
         exhaustive=True,
         assumptions=["element type u64 ramp data for get/iter histories; f64 prime data for Array::sum (exact in binary64)"],
     ),
@@ -48,7 +48,7 @@ PROPS = {
         rule="real `sfs view -O npy` binary on 40 (thorough 400) random non-negative count spectra with 1-4 axes x all 2^4 option subsets "
              "(marginalize via -m or -M, project via --project-shape or -p, --mask-monomorphic, -n; 1/12 of marginalization / projection arguments inadmissible), "
              "single invocation and the four-stage chain piped through npy, compared with viewRun in exact rationals within 2^-30 relative; a quarter of the cases also as text at precision 0/1/3/6/12/15 (header line exact, one token per entry with exactly p decimals, each within half a printed unit + 2^-30 relative of the model value); "
-             "non-trivial = distinct request with at least one option set, or an error case A fifth of the inputs are on frequency scale already (dyadic fractions summing to exactly one), a tenth sum to one only between the corners, a tenth are zero except the corners. A fifth of the inputs have monomorphic cells of 2^52 / 2^53 / 1e18 / 1e300 next to single-digit interior counts. Round 6: keep lists naming an axis twice (adjacent or not) or an axis the spectrum does not have. Round 7: text outputs of 100 KiB and more through `view`, plain / masked / normalised. Round 8: -n and --mask-monomorphic -n on 65537 / 66049 (thorough 100001) entries.",
+             "non-trivial = distinct request with at least one option set, or an error case A fifth of the inputs are on frequency scale already (dyadic fractions summing to exactly one), a tenth sum to one only between the corners, a tenth are zero except the corners. A fifth of the inputs have monomorphic cells of 2^52 / 2^53 / 1e18 / 1e300 next to single-digit interior counts. Round 6: keep lists naming an axis twice (adjacent or not) or an axis the spectrum does not have. Round 7: text outputs of 100 KiB and more through `view`, plain / masked / normalised. Round 8: -n and --mask-monomorphic -n on 65537 / 66049 (thorough 100001) entries. Round 9: text -> npy -> text of 16-18 digit tokens and whole numbers beyond 2^40 at 17 / 16 / 18 / 6 / 9 decimals.",
         exhaustive=False,
         assumptions=["numeric agreement within 2^-30*(|q| + scale): projection and normalisation are evaluated in binary64 by the implementation"],
         
@@ -76,7 +76,7 @@ PROPS = {
         rule="exhaustive: all 26 maps of 3 columns into <= 2 populations x all 64 records over {0,1,2,missing}^3 (in-process); random: 1-4 populations of unequal size, 2-12 (thorough 40) columns, "
              "any subset listed in any order, named/unnamed mix, 1-30 (thorough 300) records over called/missing/multiallelic/ploidy-error genotypes with 'only an unselected sample is bad' forced in 10%, "
              "two contigs, extra INFO/FORMAT fields; 300 in-process + 50 CLI (thorough 3000 + 400) over vcf/vcf.gz/bcf/raw bcf; stdout compared byte for byte (precision forced to 0); "
-             "non-trivial = distinct request with >= 2 populations, or with both counted and skipped records, or a failing run Positions repeat (a third of the records share contig:position with their predecessor). Byte level (`ct.create`): a third of the CLI cases are also decoded from their container bytes by the model (Inflate / Bgzf / Vcf / Bcf models) instead of being handed over in the harness's notation. Every CLI run carries a log verbosity derived from its arguments (none / -v / -vv / -vvv). INFO-rich call sets carry AC / AN values that are deliberately out of step with the genotypes. Round 6: a third of the CLI call sets use sample names and labels with blanks; VCF-bound call sets carry allele indices 256 / 257 / 65536 / 2^32 (truncation to a narrower integer). Round 7: BGZF layouts with a leading empty block, a two-byte first block, and VCF text without final newline cut inside its last line rotate through the CLI and byte-level cases. Round 8: a third of the CLI call sets again under --strict with the listed samples complete and the unlisted ones incomplete.",
+             "non-trivial = distinct request with >= 2 populations, or with both counted and skipped records, or a failing run Positions repeat (a third of the records share contig:position with their predecessor). Byte level (`ct.create`): a third of the CLI cases are also decoded from their container bytes by the model (Inflate / Bgzf / Vcf / Bcf models) instead of being handed over in the harness's notation. Every CLI run carries a log verbosity derived from its arguments (none / -v / -vv / -vvv). INFO-rich call sets carry AC / AN values that are deliberately out of step with the genotypes. Round 6: a third of the CLI call sets use sample names and labels with blanks; VCF-bound call sets carry allele indices 256 / 257 / 65536 / 2^32 (truncation to a narrower integer). Round 7: BGZF layouts with a leading empty block, a two-byte first block, and VCF text without final newline cut inside its last line rotate through the CLI and byte-level cases. Round 8: a third of the CLI call sets again under --strict with the listed samples complete and the unlisted ones incomplete. Round 9: ten populations of one sample each (59049 cells, a value line beyond 64 KiB).",
         exhaustive=True, assumptions=["in-process cases drive the real site::Reader through an in-memory genotype::Reader; CLI cases run the real binary on generated VCF text / BCF (noodles writer, or a hand-written BCF2.2 encoder for mixed ploidy) / BGZF", "noodles (VCF/BCF/BGZF parsing), clap and env_logger are exercised, not modelled"],
     ),
     "C02": dict(
@@ -104,7 +104,7 @@ PROPS = {
         nontrivial=r"^c09-cli-",
         rule="150 (thorough 1500) call sets x sample lists (subset, random order, named/unnamed mix) given inline (-s) and as a file (-S), 3 permutations of list entries, 3 permutations of the input columns "
              "(VCF and BCF), plus error lists (absent sample, empty file, sample listed twice with different labels); every variant compared with the model, whose invariance under these transformations is proved; "
-             "non-trivial = every distinct request A third of the call sets use sample names and labels with blanks, punctuation, shared first words, a label that is a prefix of another, an empty label, non-ASCII letters. A quarter of the call sets also pass the list through a named pipe as the samples file. Every fifth call set puts haploid / triploid / tetraploid genotypes into the unlisted columns. Round 6: samples files with CR LF line endings (after every line / between lines only). Round 7: every sixth call set has a record with a skipped and a non-diploid listed sample (fails whatever the column / list order). Round 8: a samples file whose last line is not valid UTF-8 must fail the run.",
+             "non-trivial = every distinct request A third of the call sets use sample names and labels with blanks, punctuation, shared first words, a label that is a prefix of another, an empty label, non-ASCII letters. A quarter of the call sets also pass the list through a named pipe as the samples file. Every fifth call set puts haploid / triploid / tetraploid genotypes into the unlisted columns. Round 6: samples files with CR LF line endings (after every line / between lines only). Round 7: every sixth call set has a record with a skipped and a non-diploid listed sample (fails whatever the column / list order). Round 8: a samples file whose last line is not valid UTF-8 must fail the run. Round 9: an empty label next to an unlabelled sample, blank list items, inline and by file.",
         exhaustive=False, assumptions=["in-process cases drive the real site::Reader through an in-memory genotype::Reader; CLI cases run the real binary on generated VCF text / BCF (noodles writer, or a hand-written BCF2.2 encoder for mixed ploidy) / BGZF", "noodles (VCF/BCF/BGZF parsing), clap and env_logger are exercised, not modelled"],
     ),
     "C10": dict(
@@ -183,7 +183,7 @@ PROPS.update({
         rule="6 (thorough 30) npy files: first-chunk length enumerated 1..min(len,600) with later chunks whole / 1 byte / random 1-11, a read failure injected at every byte offset 0..len (incl. failing instead of EOF), truncated files over random schedules; "
              "the text reader likewise; writers: 1..7 bytes accepted per call and random schedules, a write failure at every offset (every third in quick); "
              "genotype reader (hook build_from_bufread) over vcf / vcf.gz / bcf / raw bcf for 3 (thorough 12) call sets: first chunk 1..150 (thorough 600) then whole / 1-byte / random chunks, 4096 / 8192 / 65535 / 65536 / 65537, all 1-byte, "
-             "and failures at 21 (thorough 101) offsets across the stream — a failing stream must give an error or the complete result; compared with the create model; non-trivial = every distinct request Plus the binary reading a named pipe given as the input path with a first write of 1 / 2 / 3 / 19 / 27 bytes (vcf, vcf.gz, bcf, raw bcf). Injected failures rotate through seven error kinds (Other, BrokenPipe, ConnectionReset, PermissionDenied, TimedOut, WouldBlock, ConnectionAborted); `io.epipe` runs view / fold / stat with the reading end of stdout already closed. The short-writing sink implements write_vectored natively (the per-call limit applies across the buffers). Round 6: `io.fsize` — stdout a regular file under RLIMIT_FSIZE with the limit inside header, values, the final bytes, at and beyond the full length (F35). Round 7: npy 2.0 / 3.0 with headers of more than 65535 bytes through chunked and failing readers; text streams with a refused header line and a failure at every offset. Round 8: `io.fsizeo` (`-o PATH` under a file-size limit); stdout cases are decided by the line-writer model (`Model/Stdout.lean`).",
+             "and failures at 21 (thorough 101) offsets across the stream — a failing stream must give an error or the complete result; compared with the create model; non-trivial = every distinct request Plus the binary reading a named pipe given as the input path with a first write of 1 / 2 / 3 / 19 / 27 bytes (vcf, vcf.gz, bcf, raw bcf). Injected failures rotate through seven error kinds (Other, BrokenPipe, ConnectionReset, PermissionDenied, TimedOut, WouldBlock, ConnectionAborted); `io.epipe` runs view / fold / stat with the reading end of stdout already closed. The short-writing sink implements write_vectored natively (the per-call limit applies across the buffers). Round 6: `io.fsize` — stdout a regular file under RLIMIT_FSIZE with the limit inside header, values, the final bytes, at and beyond the full length (F35). Round 7: npy 2.0 / 3.0 with headers of more than 65535 bytes through chunked and failing readers; text streams with a refused header line and a failure at every offset. Round 8: `io.fsizeo` (`-o PATH` under a file-size limit); stdout cases are decided by the line-writer model (`Model/Stdout.lean`). Round 9: a named pipe as input PATH carrying more than 64 KiB of plain and BGZF VCF.",
         exhaustive=True, assumptions=IO_ASSUME + ["noodles' VCF/BCF/BGZF readers are exercised over chunk schedules, not modelled (partial: explored, not proved)"],
         correspondence_only=["schedule independence and failure propagation of the noodles-based genotype reader path (vcf, vcf.gz, bcf, raw bcf)"],
     ),
@@ -203,7 +203,7 @@ PROPS.update({
         rule="estimator level: 56 (thorough 416) 1-D count spectra with n in {3..7, 10, 25, 63, 64, 100, 169..172, 200, 400} + log-uniform up to 500 (thorough 900) chromosomes, a third with many empty classes: pi, theta, Tajima's D, Fu and Li's D, S, sum; "
              "all 14 statistics (wrong dimensionality -> the specific error) on 160 (thorough 1500) spectra with 1-4 axes of unequal length incl. 3x3, a quarter also through `sfs stat` at precision 6/12/15; 60 (thorough 400) invocations over the option surface of `sfs stat` (header row, delimiter, one precision for all / one per statistic / a wrong number, an inapplicable statistic in any position) against the `statCli` model; "
              "genotype level: 150 (thorough 1500) call sets with 1-4 populations of unequal size (and two-individual sets for KING/R0/R1), 1-60 (thorough 200) records with missing / multiallelic genotypes and unselected columns -> real site reader -> statistics, "
-             "compared with the definitions evaluated directly on the genotypes (Spec.g*, published estimators on the class counts); a fifth through `sfs create | sfs stat --precision 12`; non-trivial = distinct request on a spectrum with more than 4 cells or any genotype-level / CLI case Multiallelic genotypes are spelled with one- and two-digit allele indices (0/2, 0/10, 2/1, 1|12). Every n from 3 to 260 (thorough 700) once at estimator level (the two D statistics on every fifth). The genotype-level CLI cases include pooled call sets (no sample list) whose VCF carries stale AC / AN. Round 6: `st.harm` sweeps harmonic(n) and p_harmonic(n,2) for every n up to 12288 (thorough 40000); spectra with 1024-5009 entries (1-D, 33x33, 11x11x11, 6^4); theta at n = 1024 (thorough 2504, 4096, 5008). Round 7: two thirds of the genotype-level call sets repeat positions and start the second contig where the first ended. Round 8: `sfs stat` at 17 … 1000 decimals and with per-statistic precision lists such as 6,400,6; sums over 65537 … 100001 entries.",
+             "compared with the definitions evaluated directly on the genotypes (Spec.g*, published estimators on the class counts); a fifth through `sfs create | sfs stat --precision 12`; non-trivial = distinct request on a spectrum with more than 4 cells or any genotype-level / CLI case Multiallelic genotypes are spelled with one- and two-digit allele indices (0/2, 0/10, 2/1, 1|12). Every n from 3 to 260 (thorough 700) once at estimator level (the two D statistics on every fifth). The genotype-level CLI cases include pooled call sets (no sample list) whose VCF carries stale AC / AN. Round 6: `st.harm` sweeps harmonic(n) and p_harmonic(n,2) for every n up to 12288 (thorough 40000); spectra with 1024-5009 entries (1-D, 33x33, 11x11x11, 6^4); theta at n = 1024 (thorough 2504, 4096, 5008). Round 7: two thirds of the genotype-level call sets repeat positions and start the second contig where the first ended. Round 8: `sfs stat` at 17 … 1000 decimals and with per-statistic precision lists such as 6,400,6; sums over 65537 … 100001 entries. Round 9: spectra dominated by 7e5 … 3e9 monomorphic sites next to a handful of variants (in-process and through `sfs stat`).",
         exhaustive=False, assumptions=ST_ASSUME,
         correspondence_only=["accuracy of the binary64 evaluation (2^-30 relative bound is tested, not derived)"],
     ),
@@ -215,7 +215,7 @@ PROPS.update({
         nontrivial=r"^strel-",
         rule="200 (thorough 3000) count spectra with 1-4 axes of unequal length (and 3x3): for every applicable statistic the value on x and on T(x) for T in {fold with fill zero (library and `sfs fold --fill zero | sfs stat`), "
              "replace the two monomorphic entries by random values, multiply by a constant in {2, 0.5, 3, 0.1, 1000, 7.25, 0.001}, swap the two populations}, and f3 / f4 against the f2 combination of the marginals computed with the real marginalize; "
-             "both values compared with the model, and the relation itself re-checked on the model values in exact arithmetic (a relation failing there is reported as a model-level violation); non-trivial = every distinct request Plus `sfs stat` invocations computing all applicable statistics together in random order (and count-based next to frequency-based pairs) on x, c*x and x with other monomorphic entries. Plus `monoip`: total and statistic queried, the two monomorphic cells overwritten in place through IndexMut on the same object, statistic queried again (every statistic). 150 (thorough 1500) `hist.scs` call histories on one spectrum object. Scale constants range from 1e-290 to 1e280 (the two D statistics up to 1e100). Round 6: the relations on spectra with 1025-4100 entries (1-D, 33x33, 40x30, 11x11x11, 6^4). Round 8: monomorphic entries of 1e18 / 2^62 under fst, king, r0, r1.",
+             "both values compared with the model, and the relation itself re-checked on the model values in exact arithmetic (a relation failing there is reported as a model-level violation); non-trivial = every distinct request Plus `sfs stat` invocations computing all applicable statistics together in random order (and count-based next to frequency-based pairs) on x, c*x and x with other monomorphic entries. Plus `monoip`: total and statistic queried, the two monomorphic cells overwritten in place through IndexMut on the same object, statistic queried again (every statistic). 150 (thorough 1500) `hist.scs` call histories on one spectrum object. Scale constants range from 1e-290 to 1e280 (the two D statistics up to 1e100). Round 6: the relations on spectra with 1025-4100 entries (1-D, 33x33, 40x30, 11x11x11, 6^4). Round 8: monomorphic entries of 1e18 / 2^62 under fst, king, r0, r1. Round 9: monomorphic cells of 2^53 / 1e18 under S, pi, theta, Tajima's D, pi_xy; the tolerance scale of S / pi / theta is the polymorphic mass alone.",
         exhaustive=False, assumptions=ST_ASSUME + ["swapping, scaling and replacing entries are done by the harness on the data (there is no sfs operation for them); folding and marginalisation use the real code"],
     ),
 })
@@ -228,7 +228,7 @@ PROPS.update({
         rule="outcome classes {OK, ERR, PANIC}: the full grid statistic(14) x shapes with 1-4 axes of length 0..4 (all 780 shapes in thorough; 1-3 axes + a fifth of the 4-axis shapes in quick) in-process (each statistic separately, panics caught), a sample of it through `sfs stat` / `sfs fold --fill *` / `sfs view [-O npy]` on text inputs (zero-element spectra included), view option combinations on degenerate shapes, "
              "27 empty / 1-7 byte / header-only inputs x 5 invocations, 24 absurd declared shapes (2^32 x 2^32, zero-masked overflow, 2^64 +- 1, 300 / 22000 axes) x 12 invocations, 35 option values at and beyond their bounds (--precision 65535/65536/2^32/2^64, -p 2^63.., axis 2^64-1, delimiters), 29 contradictory sample lists / projections / thread counts for create, "
              "and a mutation stream of 2400 (thorough 50000) inputs (bit flips, byte edits, deletions, duplications, truncations, splices, huge numbers, separators) over text / npy spectra, VCF, raw BCF and BGZF payloads re-wrapped in valid blocks; where the model predicts the class it must match, elsewhere the run must end in OK or in a non-zero status with a diagnostic on stderr; "
-             "non-trivial = distinct request whose class the model predicts, or any run that ends in a diagnosed error Plus npy / text headers declaring degenerate shapes ((), (,), (0,), (1,), (1, 1), (0, 0), <>) x each of the 14 statistics separately and the view / fold options. Plus every axis length 2..260 (thorough 600) once, projected to two chromosomes with all mass in the last cell, every fourth also to one less than it has. Every single-axis marginalization / keep / projection of every zero-element shape of the grid through the binary. Round 6: axis lists of every form for -m / -M on spectra of 1-6 axes; zero-element shapes at the limits of usize (F37). Round 7: BCF whose records carry more or fewer samples than the header names. Round 8: refused npy and text headers with 2-, 3- and 4-byte characters at every offset 60-100.",
+             "non-trivial = distinct request whose class the model predicts, or any run that ends in a diagnosed error Plus npy / text headers declaring degenerate shapes ((), (,), (0,), (1,), (1, 1), (0, 0), <>) x each of the 14 statistics separately and the view / fold options. Plus every axis length 2..260 (thorough 600) once, projected to two chromosomes with all mass in the last cell, every fourth also to one less than it has. Every single-axis marginalization / keep / projection of every zero-element shape of the grid through the binary. Round 6: axis lists of every form for -m / -M on spectra of 1-6 axes; zero-element shapes at the limits of usize (F37). Round 7: BCF whose records carry more or fewer samples than the header names. Round 8: refused npy and text headers with 2-, 3- and 4-byte characters at every offset 60-100. Round 9: sample lists with blank items and empty labels among the odd `create` arguments.",
         exhaustive=True, assumptions=["the binary is the debug build the test suite uses (overflow checks on); in-process cases run under catch_unwind", "noodles / clap / nom / flate2 are exercised, not modelled; 14 panic sites inside noodles-bcf 0.32.0 (`todo!` on reserved typed values, split_at on zero alleles) are listed in known_findings.json and reported as KNOWN-FINDING"],
         correspondence_only=["absence of panics in third-party parsing of arbitrary VCF/BCF bytes (explored by the mutation stream)", "clap's handling of option values (explored)"],
     ),
